@@ -47,8 +47,10 @@ def ctype_of_base(bt):
     if isinstance(bt, N.CSimpleBaseTypeNode):
         name = bt.name
         if bt.is_basic_c_type:
-            if name in ("double", "float"):
+            if name == "double":
                 return "double"
+            if name == "float":
+                return "float32"          # a C float: values are rounded to single precision on assignment (see Interp.coerce)
             if name == "void":
                 return "void"
             if name == "bint":
